@@ -295,3 +295,1069 @@ Proof.
   - now rewrite osum_empty.
   - rewrite bsum_empty. lia.
 Qed.
+
+(* ------------------------------------------------------------------------------------------ *)
+(* what the invariant says about one live deal *)
+Lemma deal_facts now owed S st id p :
+  InvS now owed S st -> proposals st !! id = Some p ->
+  let c := p_client p in let pr := p_provider p in
+  let pu := paid_until (S !! id) p in
+  wf_prop p /\ p_start p <= pu < p_end p /\ 0 <= fee_left pu p /\
+  p_ccoll p + fee_left pu p + ind c pr (p_pcoll p) <= L st c /\
+  ind pr c (p_ccoll p + fee_left pu p) + p_pcoll p <= L st pr /\
+  (forall a, L st a <= E st a) /\ (forall a, 0 <= L st a).
+Proof.
+  intros I Hp c pr pu. unfold InvS in I.
+  destruct (i_wfP _ _ _ _ _ _ _ _ _ _ _ _ I id p Hp) as [Hw _].
+  pose proof (inv_pu I id p Hp) as Hb. fold pu in Hb.
+  split; [exact Hw|]. split; [exact Hb|].
+  destruct Hw as (W1 & W2 & W3 & W4 & W5).
+  split; [apply fee_left_nonneg; lia|].
+  pose proof (inv_L_ge I c id p Hp) as H1. pose proof (inv_L_ge I pr id p Hp) as H2.
+  unfold contribf in H1, H2. fold pu c pr in H1, H2. rewrite ind_same in H1, H2.
+  split; [lia|]. split; [lia|].
+  split; [exact (i_esc _ _ _ _ _ _ _ _ _ _ _ _ I)|]. intros a. exact (inv_L_nonneg I a).
+Qed.
+
+Lemma eff_L0 c pr st st' a : eff c pr st st' 0 0 0 0 0 0 0 -> L st' a = L st a.
+Proof. intros [H _ _ _ _ _ _]. rewrite H, !ind_0. lia. Qed.
+Lemma eff_E0 c pr st st' a : eff c pr st st' 0 0 0 0 0 0 0 -> E st' a = E st a.
+Proof. intros [_ H _ _ _ _ _]. rewrite H. replace (0 - 0) with 0 by lia. rewrite !ind_0. lia. Qed.
+
+(* normal expiry *)
+Lemma expired_spec c pr st p ds :
+  c = p_client p -> pr = p_provider p ->
+  ds_start ds <> UNDEF -> 0 <= p_pcoll p -> 0 <= p_ccoll p ->
+  p_pcoll p <= L st pr -> p_ccoll p + ind c pr (p_pcoll p) <= L st c ->
+  exists st', process_deal_expired st p ds = Ok st' tt /\
+    eff c pr st st' (p_ccoll p) (p_pcoll p) 0 0 (p_ccoll p) (p_pcoll p) 0 /\ pending st' = pending st.
+Proof.
+  intros -> -> Hs H1 H2 H3 H4. unfold process_deal_expired.
+  destruct (ds_start ds =? UNDEF) eqn:Es; zb; [contradiction|].
+  destruct (unlock_provider (p_client p) (p_provider p) st (p_pcoll p) RPcoll H1 H3) as (st1 & R1 & F1 & P1).
+  rewrite R1. cbn [bind].
+  destruct (unlock_client (p_client p) (p_provider p) st1 (p_ccoll p) RCcoll H2) as (st2 & R2 & F2 & P2).
+  { rewrite (e_L _ _ _ _ _ _ _ _ _ _ _ F1), ind_0. lia. }
+  exists st2. split; [exact R2|]. split; [|congruence].
+  eapply eff_cast; [eapply eff_trans; [exact F1|exact F2]|lia..].
+Qed.
+
+Lemma pu_some_lu p ds :
+  0 <= p_start p ->
+  (ds_lu ds = UNDEF \/ 0 <= ds_lu ds) ->
+  (if negb (ds_lu ds =? UNDEF) && (p_start p <? ds_lu ds) then ds_lu ds else p_start p) = paid_until (Some ds) p /\
+  Z.max (p_start p) (ds_lu ds) = paid_until (Some ds) p.
+Proof.
+  intros H0 H. unfold paid_until, UNDEF in *.
+  destruct (ds_lu ds =? -1) eqn:E1; zb; cbn [negb andb].
+  - split; [reflexivity|]. rewrite E1. lia.
+  - destruct (p_start p <? ds_lu ds) eqn:E2; zb; lia.
+Qed.
+
+(* process_deal_update on a live, unslashed deal: pays exactly price * (new paid-until - old paid-until) *)
+Lemma pdu_spec epoch owed S st id p ds :
+  InvS epoch owed S st -> proposals st !! id = Some p -> S !! id = Some ds -> 0 <= epoch ->
+  let c := p_client p in let pr := p_provider p in
+  let pu := paid_until (Some ds) p in
+  let pu' := Z.max pu (Z.min (p_end p) epoch) in
+  let x := p_price p * (pu' - pu) in
+  let done := p_end p <=? epoch in
+  let k := if done then 1 else 0 in
+  exists st',
+    process_deal_update st ds p epoch = Ok st' (0, x, done, done) /\
+    eff c pr st st' (x + k * p_ccoll p) (k * p_pcoll p) x 0 (k * p_ccoll p) (k * p_pcoll p) x /\
+    pending st' = (if ds_lu ds =? UNDEF then pend_del (pending st) p else pending st).
+Proof.
+  intros I Hp Hs He c pr pu pu' x done k.
+  destruct (deal_facts _ _ _ _ _ _ I Hp) as ((W1 & W2 & W3 & W4 & W5) & Hpu & Hfl & HLc & HLp & HLE & HLn).
+  rewrite Hs in Hpu, Hfl, HLc, HLp. fold pu c pr in Hpu, Hfl, HLc, HLp.
+  destruct (i_wfS _ _ _ _ _ _ _ _ _ _ _ _ I id ds Hs) as (q & Hq & D1 & D2 & D3).
+  assert (q = p) as -> by congruence.
+  assert (Hlu : ds_lu ds = UNDEF \/ 0 <= ds_lu ds) by (destruct D3; [now left|right; lia]).
+  destruct (pu_some_lu p ds W5 Hlu) as [Hps _]. fold pu in Hps.
+  pose proof (ind_nonneg c pr (p_pcoll p) W3) as Hi1.
+  pose proof (ind_nonneg pr c (p_ccoll p + fee_left pu p) ltac:(lia)) as Hi2.
+  unfold process_deal_update. rewrite D1. cbn [negb Z.eqb UNDEF Pos.eqb].
+  set (st0 := if negb (ds_lu ds =? UNDEF) then st else remove_pending st p).
+  assert (F0 : eff c pr st st0 0 0 0 0 0 0 0).
+  { unfold st0. destruct (negb (ds_lu ds =? UNDEF)); [apply eff_refl|apply eff_remove_pending]. }
+  assert (P0 : pending st0 = if ds_lu ds =? UNDEF then pend_del (pending st) p else pending st).
+  { unfold st0. destruct (ds_lu ds =? UNDEF); reflexivity. }
+  assert (Hfut : negb (ds_lu ds =? UNDEF) && (epoch <? ds_lu ds) = false).
+  { destruct D3 as [D3|D3]; [rewrite D3; reflexivity|].
+    destruct (epoch <? ds_lu ds) eqn:E1; zb; [lia|apply andb_false_r]. }
+  rewrite Hfut.
+  destruct (epoch <? p_start p) eqn:Es; zb.
+  - (* before the start epoch: nothing to pay *)
+    assert (pu' = pu) by (unfold pu'; lia).
+    assert (x = 0) as -> by (unfold x; nia).
+    assert (done = false) as Hd by (unfold done; apply Z.leb_gt; lia).
+    unfold k. rewrite Hd.
+    exists st0. split; [reflexivity|]. split; [|exact P0].
+    eapply eff_cast; [exact F0|lia..].
+  - cbn [bind]. rewrite Hps.
+    assert (Hpu' : pu' = Z.min (p_end p) epoch).
+    { unfold pu'. destruct D3 as [D3|D3].
+      - unfold pu, paid_until. rewrite D3. cbn. lia.
+      - unfold pu, paid_until in *. destruct (ds_lu ds =? UNDEF); lia. }
+    rewrite <- Hpu'. fold x.
+    assert (Hx : 0 <= x <= fee_left pu p).
+    { unfold x, fee_left. split; [apply Z.mul_nonneg_nonneg; lia|apply Z.mul_le_mono_nonneg_l; lia]. }
+    destruct (transfer_opt c pr st0 x) as (st1 & R1 & F1 & P1); try lia.
+    { rewrite (eff_L0 _ _ _ _ _ F0). lia. }
+    { rewrite (eff_E0 _ _ _ _ _ F0). specialize (HLE c). lia. }
+    { rewrite (eff_E0 _ _ _ _ _ F0). specialize (HLE pr). specialize (HLn pr). lia. }
+    fold c pr. rewrite R1. cbn [bind].
+    pose proof (eff_trans _ _ _ _ _ _ _ _ _ _ _ _ _ _ _ _ _ _ _ F0 F1) as F01.
+    fold done. destruct done eqn:Hd.
+    + (* completed *)
+      destruct (expired_spec c pr st1 p ds eq_refl eq_refl D2 W3 W4) as (st2 & R2 & F2 & P2).
+      { rewrite (e_L _ _ _ _ _ _ _ _ _ _ _ F01). ind_cases. }
+      { rewrite (e_L _ _ _ _ _ _ _ _ _ _ _ F01). ind_cases. }
+      rewrite R2. cbn [bind].
+      exists st2. split; [reflexivity|]. split; [|congruence].
+      unfold k. eapply eff_cast; [eapply eff_trans; [exact F01|exact F2]|lia..].
+    + exists st1. split; [reflexivity|]. split; [|congruence].
+      unfold k. eapply eff_cast; [exact F01|lia..].
+Qed.
+
+(* the proposal was not activated by its start epoch *)
+Lemma timed_out_spec now owed S st id p :
+  InvS now owed S st -> proposals st !! id = Some p -> S !! id = None ->
+  let c := p_client p in let pr := p_provider p in
+  exists st', process_deal_init_timed_out st p = Ok st' (p_pcoll p) /\
+    eff c pr st st' (p_ccoll p + total_fee p) (p_pcoll p) 0 (p_pcoll p) (p_ccoll p) (p_pcoll p) (total_fee p) /\
+    pending st' = pending st.
+Proof.
+  intros I Hp Hs c pr.
+  destruct (deal_facts _ _ _ _ _ _ I Hp) as ((W1 & W2 & W3 & W4 & W5) & Hpu & Hfl & HLc & HLp & HLE & HLn).
+  rewrite Hs in Hpu, Hfl, HLc, HLp. cbn [paid_until] in *.
+  change (fee_left (p_start p) p) with (total_fee p) in *. fold c pr in HLc, HLp.
+  pose proof (ind_nonneg c pr (p_pcoll p) W3) as Hi1.
+  pose proof (ind_nonneg pr c (p_ccoll p + total_fee p) ltac:(lia)) as Hi2.
+  unfold process_deal_init_timed_out. fold c pr.
+  destruct (unlock_client c pr st (total_fee p) RFee Hfl) as (st1 & R1 & F1 & P1); [lia|].
+  rewrite R1. cbn [bind].
+  destruct (unlock_client c pr st1 (p_ccoll p) RCcoll W4) as (st2 & R2 & F2 & P2).
+  { rewrite (e_L _ _ _ _ _ _ _ _ _ _ _ F1), ind_same, ind_0. lia. }
+  rewrite R2. cbn [bind].
+  pose proof (eff_trans _ _ _ _ _ _ _ _ _ _ _ _ _ _ _ _ _ _ _ F1 F2) as F12.
+  destruct (slash_ok c pr st2 (p_pcoll p) RPcoll W3) as (st3 & R3 & F3 & P3).
+  { rewrite (e_L _ _ _ _ _ _ _ _ _ _ _ F12). ind_cases. }
+  { rewrite (e_E _ _ _ _ _ _ _ _ _ _ _ F12). specialize (HLE pr). ind_cases. }
+  rewrite R3. cbn [bind].
+  pose proof (eff_trans _ _ _ _ _ _ _ _ _ _ _ _ _ _ _ _ _ _ _ F12 F3) as F123.
+  replace (p_pcoll p - p_pcoll p) with 0 by lia.
+  destruct (unlock_provider c pr st3 0 RPcoll ltac:(lia)) as (st4 & R4 & F4 & P4).
+  { rewrite (e_L _ _ _ _ _ _ _ _ _ _ _ F123). ind_cases. }
+  rewrite R4. cbn [bind].
+  exists st4. split; [reflexivity|]. split; [|congruence].
+  eapply eff_cast; [eapply eff_trans; [exact F123|exact F4]|lia..].
+Qed.
+
+Lemma slash_arith price start end_ pu pe :
+  0 <= price -> start <= pu < end_ -> pe < end_ -> (pu <= pe \/ pu = start) ->
+  price * Z.max 0 (pe - pu) + price * (end_ - Z.max pe start) = price * (end_ - pu).
+Proof.
+  intros Hp Hpu Hpe [H|H].
+  - rewrite Z.max_r by lia. rewrite (Z.max_l pe start) by lia. lia.
+  - subst pu. destruct (Z.le_gt_cases start pe).
+    + rewrite Z.max_r by lia. rewrite (Z.max_l pe start) by lia. lia.
+    + rewrite Z.max_l by lia. rewrite (Z.max_r pe start) by lia. lia.
+Qed.
+
+(* the deal's sector is terminated at epoch pe (before the deal's end) *)
+Lemma slashed_spec now owed S st id p ds pe :
+  InvS now owed S st -> proposals st !! id = Some p -> S !! id = Some ds -> now <= pe -> pe < p_end p ->
+  let c := p_client p in let pr := p_provider p in
+  let pu := paid_until (Some ds) p in
+  let x := p_price p * Z.max 0 (pe - pu) in
+  exists st', process_slashed_deal st p (mkDs (ds_sector ds) (ds_start ds) (ds_lu ds) pe) = Ok st' (p_pcoll p) /\
+    eff c pr st st' (p_ccoll p + fee_left pu p) (p_pcoll p) x (p_pcoll p) (p_ccoll p) (p_pcoll p) (fee_left pu p) /\
+    pending st' = pending st.
+Proof.
+  intros I Hp Hs Hnow Hpe c pr pu x.
+  destruct (deal_facts _ _ _ _ _ _ I Hp) as ((W1 & W2 & W3 & W4 & W5) & Hpu & Hfl & HLc & HLp & HLE & HLn).
+  rewrite Hs in Hpu, Hfl, HLc, HLp. fold pu c pr in Hpu, Hfl, HLc, HLp.
+  destruct (i_wfS _ _ _ _ _ _ _ _ _ _ _ _ I id ds Hs) as (q & Hq & D1 & D2 & D3).
+  assert (q = p) as -> by congruence.
+  assert (Hlu : ds_lu ds = UNDEF \/ 0 <= ds_lu ds) by (destruct D3; [now left|right; lia]).
+  destruct (pu_some_lu p ds W5 Hlu) as [_ Hps]. fold pu in Hps.
+  assert (Hcase : pu <= pe \/ pu = p_start p).
+  { destruct D3 as [D3|D3]; unfold pu, paid_until.
+    - rewrite D3. cbn. now right.
+    - destruct (ds_lu ds =? UNDEF); [now right|]. destruct (Z.le_gt_cases (p_start p) (ds_lu ds)).
+      + left. lia. + right. lia. }
+  pose proof (ind_nonneg c pr (p_pcoll p) W3) as Hi1.
+  pose proof (ind_nonneg pr c (p_ccoll p + fee_left pu p) ltac:(lia)) as Hi2.
+  set (rem := p_price p * (p_end p - Z.max pe (p_start p))).
+  assert (Hsum : x + rem = fee_left pu p).
+  { unfold x, rem, fee_left. apply slash_arith; auto. }
+  assert (Hx : 0 <= x) by (unfold x; apply Z.mul_nonneg_nonneg; lia).
+  assert (Hrem : 0 <= rem) by (unfold rem; apply Z.mul_nonneg_nonneg; lia).
+  unfold process_slashed_deal. cbn [ds_lu ds_slash ds_sector ds_start].
+  rewrite Hps. rewrite (Z.min_r (p_end p) pe) by lia. fold x. fold c pr.
+  destruct (transfer_opt c pr st x) as (st1 & R1 & F1 & P1); try lia.
+  { specialize (HLE c). lia. }
+  { specialize (HLE pr). specialize (HLn pr). lia. }
+  rewrite R1. cbn [bind].
+  unfold deal_get_payment_remaining.
+  destruct (p_end p <? pe) eqn:E1; zb; [lia|].
+  destruct (p_end p - Z.max pe (p_start p) <? 0) eqn:E2; zb; [lia|].
+  cbn [bind]. fold rem.
+  destruct (unlock_client c pr st1 rem RFee Hrem) as (st2 & R2 & F2 & P2).
+  { rewrite (e_L _ _ _ _ _ _ _ _ _ _ _ F1), ind_same, ind_0. lia. }
+  rewrite R2. cbn [bind].
+  pose proof (eff_trans _ _ _ _ _ _ _ _ _ _ _ _ _ _ _ _ _ _ _ F1 F2) as F12.
+  destruct (unlock_client c pr st2 (p_ccoll p) RCcoll W4) as (st3 & R3 & F3 & P3).
+  { rewrite (e_L _ _ _ _ _ _ _ _ _ _ _ F12), ind_same, ind_0. lia. }
+  rewrite R3. cbn [bind].
+  pose proof (eff_trans _ _ _ _ _ _ _ _ _ _ _ _ _ _ _ _ _ _ _ F12 F3) as F123.
+  destruct (slash_ok c pr st3 (p_pcoll p) RPcoll W3) as (st4 & R4 & F4 & P4).
+  { rewrite (e_L _ _ _ _ _ _ _ _ _ _ _ F123). ind_cases. }
+  { rewrite (e_E _ _ _ _ _ _ _ _ _ _ _ F123). specialize (HLE pr). ind_cases. }
+  rewrite R4. cbn [bind].
+  exists st4. split; [reflexivity|]. split; [|congruence].
+  eapply eff_cast; [eapply eff_trans; [exact F123|exact F4]|lia..].
+Qed.
+
+(* ------------------------------------------------------------------------------------------ *)
+(* from an effect to the invariant *)
+Lemma inv_eff_remove now owed S st st1 id p x s V :
+  InvS now owed S st -> proposals st !! id = Some p ->
+  let pu := paid_until (S !! id) p in
+  eff (p_client p) (p_provider p) st st1 (p_ccoll p + fee_left pu p) (p_pcoll p) x s
+      (p_ccoll p) (p_pcoll p) (fee_left pu p) ->
+  0 <= x <= p_ccoll p + fee_left pu p -> 0 <= s <= p_pcoll p + x ->
+  InvS now (owed + s) (delete id S) (set_proposals (set_states st1 V) (delete id (proposals st))).
+Proof.
+  intros I Hp pu F Hx Hs. destruct F as [FL FE Fsum Ftc Ftp Ftf Ffr]. destruct Ffr.
+  unfold InvS. cbn [proposals set_proposals set_states tot_ccoll tot_pcoll tot_fee escrow balance next_id].
+  change (L (set_proposals (set_states st1 V) (delete id (proposals st)))) with (L st1).
+  change (E (set_proposals (set_states st1 V) (delete id (proposals st)))) with (E st1).
+  rewrite Ftc, Ftp, Ftf, Fsum, f_bal, f_next.
+  eapply invc_remove; eauto.
+Qed.
+
+Lemma inv_eff_update now owed S st st1 id p ds' :
+  InvS now owed S st -> proposals st !! id = Some p -> wf_ds now p ds' ->
+  let pu := paid_until (S !! id) p in
+  let pu' := paid_until (Some ds') p in
+  pu <= pu' ->
+  let x := p_price p * (pu' - pu) in
+  eff (p_client p) (p_provider p) st st1 x 0 x 0 0 0 x ->
+  InvS now owed (<[id:=ds']> S) st1.
+Proof.
+  intros I Hp Hw pu pu' Hle x F. destruct F as [FL FE Fsum Ftc Ftp Ftf Ffr]. destruct Ffr.
+  subst x pu pu'.
+  unfold InvS. rewrite f_prop, Ftc, Ftp, Ftf, Fsum, f_bal, f_next.
+  replace (tot_ccoll st - 0) with (tot_ccoll st) by lia.
+  replace (tot_pcoll st - 0) with (tot_pcoll st) by lia.
+  replace (bsum (escrow st) - 0) with (bsum (escrow st)) by lia.
+  eapply invc_update; eauto.
+  - intros a. rewrite FL, ind_0. lia.
+  - intros a. rewrite FE. rewrite Z.sub_0_r. reflexivity.
+Qed.
+
+Lemma inv_eff_zero now owed S st st1 c pr :
+  InvS now owed S st -> eff c pr st st1 0 0 0 0 0 0 0 -> InvS now owed S st1.
+Proof.
+  intros I F. pose proof F as [FL FE Fsum Ftc Ftp Ftf Ffr]. destruct Ffr.
+  unfold InvS. rewrite f_prop, Ftc, Ftp, Ftf, Fsum, f_bal, f_next.
+  replace (tot_ccoll st - 0) with (tot_ccoll st) by lia.
+  replace (tot_pcoll st - 0) with (tot_pcoll st) by lia.
+  replace (tot_fee st - 0) with (tot_fee st) by lia.
+  replace (bsum (escrow st) - 0) with (bsum (escrow st)) by lia.
+  eapply invc_ext; [exact I| |].
+  - intros a. apply (eff_L0 _ _ _ _ a F).
+  - intros a. apply (eff_E0 _ _ _ _ a F).
+Qed.
+
+Lemma rcd_ok st id ds p :
+  states st !! id = Some ds -> proposals st !! id = Some p ->
+  remove_completed_deal st id =
+    Ok (set_proposals (set_states st (delete id (states st))) (delete id (proposals st))) tt.
+Proof.
+  intros Hs Hp. unfold remove_completed_deal. rewrite Hs. unfold remove_proposal. cbn. now rewrite Hp.
+Qed.
+
+Lemma rcd_err st id : states st !! id = None -> exists c, remove_completed_deal st id = Err st c.
+Proof. intros Hs. unfold remove_completed_deal. rewrite Hs. eauto. Qed.
+
+(* put_deal_states *)
+Lemma put_lookup_notin l : forall m k, ~ In k (map fst l) -> put_deal_states m l !! k = m !! k.
+Proof.
+  induction l as [|[i d] l IH]; intros m k Hn; cbn; [reflexivity|].
+  rewrite IH by (intros H; apply Hn; now right).
+  rewrite lookup_insert_ne; [reflexivity|]. intros ->. apply Hn. now left.
+Qed.
+
+Lemma put_app l : forall m i d, put_deal_states m (l ++ [(i, d)]) = <[i:=d]> (put_deal_states m l).
+Proof. induction l as [|[j e] l IH]; intros m i d; cbn; [reflexivity|apply IH]. Qed.
+
+Lemma put_delete_notin l : forall m k, ~ In k (map fst l) ->
+  put_deal_states (delete k m) l = delete k (put_deal_states m l).
+Proof.
+  induction l as [|[i d] l IH]; intros m k Hn; cbn; [reflexivity|].
+  rewrite <- IH by (intros H; apply Hn; now right).
+  f_equal. symmetry. apply delete_insert_ne. intros ->. apply Hn. now left.
+Qed.
+
+(* get_active_deal_or_process_timeout, for a live proposal *)
+Lemma gadt_spec epoch owed S st id p :
+  InvS epoch owed S st -> proposals st !! id = Some p -> states st !! id = S !! id ->
+  match get_active_deal_or_process_timeout st epoch id p with
+  | Ok st' (Loaded ds) => st' = st /\ S !! id = Some ds
+  | Ok st' TooEarly => st' = st /\ S !! id = None /\ epoch < p_start p
+  | Ok st' (ProposalExpired pen) =>
+      S !! id = None /\ p_start p <= epoch /\ pen = p_pcoll p /\
+      InvS epoch (owed + pen) S st' /\ states st' = states st /\ proposals st' = delete id (proposals st) /\
+      next_id st' = next_id st /\ pending st' = pend_del (pending st) p /\ pend_has (pending st) p = true
+  | Err st' c =>
+      S !! id = None /\ p_start p <= epoch /\
+      InvS epoch owed S st' /\ states st' = states st /\ proposals st' = delete id (proposals st) /\
+      next_id st' = next_id st /\ pend_has (pending st) p = false
+  end.
+Proof.
+  intros I Hp Hs. unfold get_active_deal_or_process_timeout. rewrite Hs.
+  destruct (S !! id) as [ds|] eqn:HS; [split; reflexivity|].
+  destruct (epoch <? p_start p) eqn:Es; zb; [repeat split; auto|].
+  destruct (timed_out_spec _ _ _ _ _ _ I Hp HS) as (st1 & R1 & F1 & P1).
+  rewrite R1. cbn [bind].
+  pose proof F1 as [_ _ _ _ _ _ Ffr]. destruct Ffr.
+  unfold remove_proposal. rewrite f_prop, Hp. cbn [bind].
+  destruct (deal_facts _ _ _ _ _ _ I Hp) as ((W1 & W2 & W3 & W4 & W5) & Hpu & Hfl & _).
+  rewrite HS in Hfl. cbn [paid_until] in Hfl. change (fee_left (p_start p) p) with (total_fee p) in Hfl.
+  assert (I2 : forall o, o = owed + p_pcoll p \/ o = owed ->
+            InvS epoch o S (set_proposals st1 (delete id (proposals st)))).
+  { intros o Ho.
+    pose proof (inv_eff_remove epoch owed S st st1 id p 0 (p_pcoll p) (states st1) I Hp) as H.
+    rewrite HS in H. cbn [paid_until] in H. change (fee_left (p_start p) p) with (total_fee p) in H.
+    specialize (H F1 ltac:(lia) ltac:(lia)).
+    rewrite (delete_notin S id HS) in H.
+    assert (set_states st1 (states st1) = st1) as Heq by (destruct st1; reflexivity).
+    rewrite Heq in H.
+    destruct Ho as [->| ->]; [exact H|].
+    pose proof (i_owed _ _ _ _ _ _ _ _ _ _ _ _ I) as Hown.
+    unfold InvS in *. destruct H. constructor; auto; lia. }
+  cbn [pending set_proposals]. rewrite P1.
+  destruct (pend_has (pending st) p) eqn:Eh; cbn [negb].
+  - split; [reflexivity|]. split; [exact Es|]. split; [reflexivity|].
+    split. { change (InvS epoch (owed + p_pcoll p) S (set_proposals st1 (delete id (proposals st)))).
+             apply I2; now left. }
+    split; [exact f_states|]. split; [reflexivity|]. split; [exact f_next|].
+    split; [|reflexivity]. cbn. now rewrite P1.
+  - split; [reflexivity|]. split; [exact Es|].
+    split. { apply I2; now right. }
+    split; [exact f_states|]. split; [reflexivity|]. split; [exact f_next|]. reflexivity.
+Qed.
+
+(* ------------------------------------------------------------------------------------------ *)
+(* handlers *)
+Lemma inv_bsum_nonneg now owed S st : InvS now owed S st -> 0 <= bsum (escrow st).
+Proof. intros I. apply bsum_nonneg. intros a. exact (inv_E_nonneg I a). Qed.
+
+Lemma inv_E_le_balance now owed S st a : InvS now owed S st -> E st a <= balance st.
+Proof.
+  intros I. pose proof (bsum_ge (escrow st) a (fun b => inv_E_nonneg I b)).
+  pose proof (i_solv _ _ _ _ _ _ _ _ _ _ _ _ I). pose proof (i_owed _ _ _ _ _ _ _ _ _ _ _ _ I).
+  unfold E. lia.
+Qed.
+
+Lemma add_balance_inv now st who t v :
+  MarketInv now st -> MarketInv now (fst (add_balance st who t v)).
+Proof.
+  intros I. unfold add_balance.
+  destruct (v <=? 0) eqn:Ev; [exact I|]. zb.
+  assert (H : bt_add (escrow st) who v = Some (bt_upd (escrow st) who v)).
+  { apply bt_add_ok. pose proof (inv_E_nonneg I who). unfold E in *. lia. }
+  destruct t; [exact I| |]; rewrite H; cbn [fst];
+    unfold MarketInv, InvS; cbn [proposals states set_funds set_escrow tot_ccoll tot_pcoll tot_fee escrow balance next_id];
+    rewrite bsum_upd;
+    (eapply invc_deposit with (who := who) (v := v); [exact I|lia|]);
+    intros a; unfold E; cbn; apply bt_get_upd.
+Qed.
+
+Lemma withdraw_inv now st caller who t amount :
+  MarketInv now st -> MarketInv now (fst (withdraw_balance st caller who t amount)).
+Proof.
+  intros I. unfold withdraw_balance.
+  destruct (amount <? 0) eqn:Ea; [exact I|]. zb.
+  destruct (escrow_address who t) as [[recipient approved]|]; [|exact I].
+  destruct (negb (zmem caller approved)); [exact I|].
+  unfold bt_sub_with_min.
+  pose proof (i_esc _ _ _ _ _ _ _ _ _ _ _ _ I who) as HLE. unfold L, E in HLE.
+  pose proof (inv_L_nonneg I who) as HLn. unfold L in HLn.
+  set (sub := Z.min (Z.max 0 (bt_get (escrow st) who - bt_get (locked st) who)) amount).
+  assert (Hsub : 0 <= sub <= bt_get (escrow st) who - bt_get (locked st) who) by (unfold sub; lia).
+  destruct (0 <? sub) eqn:Es; zb.
+  - rewrite bt_add_ok by lia.
+    pose proof (inv_E_le_balance _ _ _ _ who I) as Hb. unfold E in Hb.
+    destruct (balance st <? sub) eqn:Eb; zb; [lia|]. cbn [fst].
+    unfold MarketInv, InvS; cbn [proposals states set_funds set_escrow tot_ccoll tot_pcoll tot_fee escrow balance next_id].
+    rewrite bsum_upd. replace (bsum (escrow st) + - sub) with (bsum (escrow st) - sub) by lia.
+    eapply invc_withdraw with (who := who) (ex := sub); [exact I| |].
+    + change (L (set_funds _ _ _) who) with (L st who). unfold E, L. lia.
+    + intros a. unfold E. cbn. rewrite bt_get_upd. unfold ind. destruct (a =? who); lia.
+  - assert (sub = 0) as Hz by lia.
+    destruct (balance st <? sub) eqn:Eb; [exact I|]. cbn [fst].
+    unfold MarketInv, InvS; cbn [proposals states set_funds set_escrow tot_ccoll tot_pcoll tot_fee escrow balance next_id].
+    rewrite Hz. replace (balance st - 0) with (balance st) by lia. exact I.
+Qed.
+
+Lemma get_balance_inv now st who r : MarketInv now st -> MarketInv now (fst (get_balance st who r)).
+Proof. intros I. unfold get_balance. destruct (negb r); exact I. Qed.
+
+(* -- settle_deal_payments -- *)
+Definition settle_inv (epoch : Z) (st : state) (a : sacc) : Prop :=
+  InvS epoch (sa_slashed a) (put_deal_states (states st) (sa_new a)) st.
+
+Lemma settle_one_inv epoch st a i id st' a' :
+  0 <= epoch ->
+  settle_inv epoch st a -> ~ In id (map fst (sa_new a)) ->
+  settle_one epoch st a i id = Ok st' a' ->
+  settle_inv epoch st' a' /\ (forall k, In k (map fst (sa_new a')) -> In k (map fst (sa_new a)) \/ k = id).
+Proof.
+  intros He I Hnew. unfold settle_one, settle_inv in *.
+  set (S := put_deal_states (states st) (sa_new a)) in *.
+  assert (HS : states st !! id = S !! id) by (unfold S; now rewrite put_lookup_notin).
+  unfold get_proposal.
+  destruct (proposals st !! id) as [p|] eqn:Hp.
+  2:{ intros [= <- <-]. cbn. split; [exact I|auto]. }
+  pose proof (gadt_spec epoch _ S st id p I Hp HS) as G.
+  destruct (get_active_deal_or_process_timeout st epoch id p) as [st1 [| pen | ds]|st1 c].
+  - (* too early *)
+    destruct G as (-> & _). intros [= <- <-]. cbn. split; [exact I|auto].
+  - destruct G as (_ & _ & _ & G & Gs & _). intros [= <- <-]. cbn. rewrite Gs. split; [exact G|auto].
+  - destruct G as (-> & Gs).
+    destruct (i_wfS _ _ _ _ _ _ _ _ _ _ _ _ I id ds Gs) as (q & Hq & D1 & D2 & D3).
+    assert (q = p) as -> by congruence.
+    rewrite D1. cbn [negb Z.eqb UNDEF Pos.eqb].
+    destruct (pdu_spec epoch _ S st id p ds I Hp Gs He) as (st2 & R & F & Pn).
+    rewrite R.
+    pose proof F as [_ _ _ _ _ _ Ffr]. destruct Ffr.
+    destruct (deal_facts _ _ _ _ _ _ I Hp) as ((W1 & W2 & W3 & W4 & W5) & Hpu & Hfl & _).
+    rewrite Gs in Hpu, Hfl.
+    destruct (p_end p <=? epoch) eqn:Ed; zb.
+    + (* completed: removed *)
+      rewrite (rcd_ok st2 id ds p) by congruence. cbn [bind].
+      intros [= <- <-]. cbn [sa_slashed sa_new]. split; [|auto].
+      cbn [states set_proposals set_states]. rewrite f_states.
+      rewrite put_delete_notin by exact Hnew. fold S.
+      assert (Hx : Z.max (paid_until (Some ds) p) (Z.min (p_end p) epoch) = p_end p) by lia.
+      rewrite Hx in F.
+      replace (sa_slashed a) with (sa_slashed a + 0) by lia.
+      rewrite f_prop.
+      eapply inv_eff_remove with (x := p_price p * (p_end p - paid_until (Some ds) p));
+        [exact I|exact Hp| | |].
+      * rewrite Gs. eapply eff_cast; [exact F|unfold fee_left; lia..].
+      * rewrite Gs. unfold fee_left in *. lia.
+      * unfold fee_left in *. lia.
+    + (* continues: the new state is written at the end of the transaction *)
+      intros [= <- <-]. cbn [sa_slashed sa_new]. split.
+      2:{ intros k Hk. rewrite map_app in Hk. apply in_app_or in Hk as [Hk|[<-|[]]]; auto. }
+      rewrite put_app, f_states. fold S.
+      set (ds' := mkDs (ds_sector ds) (ds_start ds) epoch UNDEF).
+      assert (Hpu' : paid_until (Some ds') p = Z.max (paid_until (Some ds) p) (Z.min (p_end p) epoch)).
+      { unfold paid_until at 1. cbn [ds_lu ds']. unfold UNDEF.
+        destruct (epoch =? -1) eqn:E1; zb; [lia|].
+        destruct D3 as [D3|D3]; unfold paid_until; [rewrite D3; cbn; lia|].
+        destruct (ds_lu ds =? UNDEF); lia. }
+      eapply inv_eff_update; [exact I|exact Hp| | |].
+      * unfold wf_ds, ds'. cbn. split; [first [exact D1|reflexivity]|]. split; [exact D2|]. right. lia.
+      * rewrite Gs, Hpu'. lia.
+      * rewrite Gs, Hpu'. eapply eff_cast; [exact F|lia..].
+  - destruct G as (_ & _ & G & Gs & _). intros [= <- <-]. cbn. rewrite Gs. split; [exact G|auto].
+Qed.
+
+Lemma settle_loop_inv epoch ids : forall st a i st' a',
+  0 <= epoch -> NoDup ids ->
+  settle_inv epoch st a -> (forall k, In k ids -> ~ In k (map fst (sa_new a))) ->
+  settle_loop epoch st a i ids = Ok st' a' -> settle_inv epoch st' a'.
+Proof.
+  induction ids as [|id ids IH]; intros st a i st' a' He Hnd I Hnew; cbn [settle_loop].
+  - now intros [= <- <-].
+  - destruct (settle_one epoch st a i id) as [st1 a1|] eqn:H1; [|discriminate]. cbn [bind].
+    inversion Hnd; subst.
+    destruct (settle_one_inv _ _ _ _ _ _ _ He I (Hnew id (or_introl eq_refl)) H1) as [I1 Hk].
+    apply IH; auto.
+    intros k Hin Hk1. destruct (Hk k Hk1) as [Hk2| ->]; [|contradiction].
+    apply (Hnew k); [now right|exact Hk2].
+Qed.
+
+Lemma settle_inv_step now st epoch ids :
+  MarketInv now st -> now <= epoch -> 0 <= epoch -> NoDup ids ->
+  MarketInv epoch (fst (settle st epoch ids)).
+Proof.
+  intros I Hn He Hnd. pose proof (invc_now_mono _ _ _ _ _ _ _ _ _ _ _ _ _ I Hn) as I'.
+  unfold settle.
+  destruct (settle_loop epoch st (mkSacc [] 0 [] 0 [] []) 0 ids) as [st1 a|] eqn:Hl; [|exact I'].
+  assert (I1 : settle_inv epoch st1 a).
+  { apply (settle_loop_inv epoch ids st (mkSacc [] 0 [] 0 [] []) 0 st1 a He Hnd);
+      [exact I'|intros k _ H; exact H|exact Hl]. }
+  unfold settle_inv in I1.
+  set (st3 := set_psectors _ _).
+  assert (I3 : InvS epoch (sa_slashed a) (states st3) st3) by exact I1.
+  destruct (sa_slashed a =? 0) eqn:E0; zb.
+  - cbn [fst]. unfold MarketInv. now rewrite E0 in I3.
+  - pose proof (i_owed _ _ _ _ _ _ _ _ _ _ _ _ I3) as Ho.
+    pose proof (i_solv _ _ _ _ _ _ _ _ _ _ _ _ I3) as Hs.
+    pose proof (inv_bsum_nonneg _ _ _ _ I3) as Hb.
+    destruct ((sa_slashed a <? 0) || (balance st3 <? sa_slashed a)) eqn:E1.
+    { apply orb_true_iff in E1 as [E1|E1]; zb; lia. }
+    cbn [fst]. unfold MarketInv, InvS, burn.
+    cbn [proposals states set_funds tot_ccoll tot_pcoll tot_fee escrow balance next_id].
+    change (L (set_funds st3 _ _)) with (L st3). change (E (set_funds st3 _ _)) with (E st3).
+    eapply invc_burn. exact I3.
+Qed.
+
+(* -- cron_tick -- *)
+Definition cron_inv (epoch : Z) (st : state) (a : cracc) : Prop :=
+  InvS epoch (cr_slashed a) (states st) st.
+
+Lemma cron_one_inv epoch st a id st' a' :
+  0 <= epoch -> cron_inv epoch st a -> cron_one epoch st a id = Ok st' a' -> cron_inv epoch st' a'.
+Proof.
+  intros He I. unfold cron_one, cron_inv in *.
+  destruct (proposals st !! id) as [p|] eqn:Hp; [|now intros [= <- <-]].
+  pose proof (gadt_spec epoch _ (states st) st id p I Hp eq_refl) as G.
+  destruct (get_active_deal_or_process_timeout st epoch id p) as [st1 [| pen | ds]|st1 c]; cbn [bind];
+    try discriminate.
+  - destruct G as (_ & _ & _ & G & Gs & _). intros [= <- <-]. cbn. now rewrite Gs.
+  - destruct G as (-> & Gs).
+    destruct (i_wfS _ _ _ _ _ _ _ _ _ _ _ _ I id ds Gs) as (q & Hq & D1 & D2 & D3).
+    assert (q = p) as -> by congruence.
+    destruct (ds_lu ds =? UNDEF) eqn:Elu.
+    + destruct (pend_has (pending st) p); [|discriminate]. intros [= <- <-]. exact I.
+    + destruct (pdu_spec epoch _ (states st) st id p ds I Hp Gs He) as (st2 & R & F & Pn).
+      rewrite R. cbn [bind].
+      pose proof F as [_ _ _ _ _ _ Ffr]. destruct Ffr.
+      destruct (deal_facts _ _ _ _ _ _ I Hp) as ((W1 & W2 & W3 & W4 & W5) & Hpu & Hfl & _).
+      rewrite Gs in Hpu, Hfl.
+      destruct (p_end p <=? epoch) eqn:Ed; zb.
+      * rewrite (rcd_ok st2 id ds p) by congruence. cbn [bind].
+        intros [= <- <-]. cbn [cr_slashed states set_proposals set_states].
+        rewrite f_states, f_prop.
+        assert (Hx : Z.max (paid_until (Some ds) p) (Z.min (p_end p) epoch) = p_end p) by lia.
+        rewrite Hx in F.
+        eapply inv_eff_remove with (x := p_price p * (p_end p - paid_until (Some ds) p));
+          [exact I|exact Hp| | |].
+        -- rewrite Gs. eapply eff_cast; [exact F|unfold fee_left; lia..].
+        -- rewrite Gs. unfold fee_left in *. lia.
+        -- unfold fee_left in *. lia.
+      * cbn [negb Z.eqb]. intros [= <- <-]. cbn [cr_slashed states set_states].
+        rewrite f_states.
+        set (ds' := mkDs (ds_sector ds) (ds_start ds) epoch (ds_slash ds)).
+        assert (Hpu' : paid_until (Some ds') p = Z.max (paid_until (Some ds) p) (Z.min (p_end p) epoch)).
+        { unfold paid_until at 1. cbn [ds_lu ds']. unfold UNDEF.
+          destruct (epoch =? -1) eqn:E1; zb; [lia|].
+          destruct D3 as [D3|D3]; unfold paid_until; [rewrite D3; cbn; lia|].
+          destruct (ds_lu ds =? UNDEF); lia. }
+        change (InvS epoch (cr_slashed a) (<[id:=ds']> (states st)) st2).
+        eapply inv_eff_update; [exact I|exact Hp| | |].
+        -- unfold wf_ds, ds'. cbn. split; [exact D1|]. split; [exact D2|]. right. lia.
+        -- rewrite Gs, Hpu'. lia.
+        -- rewrite Gs, Hpu'. eapply eff_cast; [exact F|lia..].
+Qed.
+
+Lemma cron_loop_inv epoch ids : forall st a st' a',
+  0 <= epoch -> cron_inv epoch st a -> cron_loop epoch st a ids = Ok st' a' -> cron_inv epoch st' a'.
+Proof.
+  induction ids as [|id ids IH]; intros st a st' a' He I; cbn [cron_loop].
+  - now intros [= <- <-].
+  - destruct (cron_one epoch st a id) as [st1 a1|] eqn:H1; [|discriminate]. cbn [bind].
+    apply IH; [exact He|]. eapply cron_one_inv; eauto.
+Qed.
+
+Lemma burn_inv epoch owed st :
+  InvS epoch owed (states st) st ->
+  MarketInv epoch (fst (if owed =? 0 then (st, [OK])
+                        else if (owed <? 0) || (balance st <? owed) then (st, [SEND_FAILED])
+                        else (burn st owed, [OK]))) \/
+  (owed <> 0 /\ ((owed <? 0) || (balance st <? owed)) = true).
+Proof.
+  intros I. destruct (owed =? 0) eqn:E0; zb.
+  - left. cbn [fst]. unfold MarketInv. now rewrite E0 in I.
+  - pose proof (i_owed _ _ _ _ _ _ _ _ _ _ _ _ I) as Ho.
+    pose proof (i_solv _ _ _ _ _ _ _ _ _ _ _ _ I) as Hs.
+    pose proof (inv_bsum_nonneg _ _ _ _ I) as Hb.
+    destruct ((owed <? 0) || (balance st <? owed)) eqn:E1.
+    { apply orb_true_iff in E1 as [E1|E1]; zb; lia. }
+    left. cbn [fst]. unfold MarketInv, InvS, burn.
+    cbn [proposals states set_funds tot_ccoll tot_pcoll tot_fee escrow balance next_id].
+    change (L (set_funds st _ _)) with (L st). change (E (set_funds st _ _)) with (E st).
+    eapply invc_burn. exact I.
+Qed.
+
+Lemma cron_inv_step now st caller epoch :
+  MarketInv now st -> now <= epoch -> 0 <= epoch -> MarketInv epoch (fst (cron_tick st caller epoch)).
+Proof.
+  intros I Hn He. pose proof (invc_now_mono _ _ _ _ _ _ _ _ _ _ _ _ _ I Hn) as I'.
+  unfold cron_tick. destruct (negb (caller =? CRON_ACTOR_ID)); [exact I'|].
+  destruct (cron_loop epoch st (mkCracc 0 [] []) (flat_map snd (due st epoch))) as [st1 a|] eqn:Hl; [|exact I'].
+  assert (I1 : cron_inv epoch st1 a) by (eapply cron_loop_inv; [exact He| |exact Hl]; exact I').
+  unfold cron_inv in I1.
+  set (st3 := set_deal_ops _ _ _).
+  assert (I3 : InvS epoch (cr_slashed a) (states st3) st3) by exact I1.
+  pose proof (i_owed _ _ _ _ _ _ _ _ _ _ _ _ I3) as Ho.
+  pose proof (i_solv _ _ _ _ _ _ _ _ _ _ _ _ I3) as Hs.
+  pose proof (inv_bsum_nonneg _ _ _ _ I3) as Hb.
+  destruct (cr_slashed a =? 0) eqn:E0; zb.
+  - cbn [fst]. unfold MarketInv. now rewrite E0 in I3.
+  - destruct ((cr_slashed a <? 0) || (balance st3 <? cr_slashed a)) eqn:E1.
+    { apply orb_true_iff in E1 as [E1|E1]; zb; lia. }
+    cbn [fst]. unfold MarketInv, InvS, burn.
+    cbn [proposals states set_funds tot_ccoll tot_pcoll tot_fee escrow balance next_id].
+    change (L (set_funds st3 _ _)) with (L st3). change (E (set_funds st3 _ _)) with (E st3).
+    eapply invc_burn. exact I3.
+Qed.
+
+(* -- on_miner_sectors_terminate -- *)
+Lemma dgpr_state st p sl st' r : deal_get_payment_remaining st p sl = Ok st' r -> st' = st.
+Proof.
+  unfold deal_get_payment_remaining. destruct (p_end p <? sl); [discriminate|].
+  destruct (_ <? 0); [discriminate|]. now intros [= <- _].
+Qed.
+
+Lemma psd_frame st p ds st' r : process_slashed_deal st p ds = Ok st' r -> frame st st'.
+Proof.
+  unfold process_slashed_deal.
+  set (total := p_price p * _).
+  destruct (if 0 <? total then transfer_balance st (p_client p) (p_provider p) total else Ok st tt)
+    as [st1 u1|] eqn:H1; [|discriminate]. cbn [bind].
+  assert (F1 : frame st st1).
+  { destruct (0 <? total); [now apply transfer_frame in H1|injection H1 as <- _; apply frame_refl]. }
+  destruct (deal_get_payment_remaining st1 p (ds_slash ds)) as [st2 rem|] eqn:H2; [|discriminate]. cbn [bind].
+  apply dgpr_state in H2 as ->.
+  destruct (unlock_balance st1 (p_client p) rem RFee) as [st3 u3|] eqn:H3; [|discriminate]. cbn [bind].
+  destruct (unlock_balance st3 (p_client p) (p_ccoll p) RCcoll) as [st4 u4|] eqn:H4; [|discriminate]. cbn [bind].
+  destruct (slash_balance st4 (p_provider p) (p_pcoll p) RPcoll) as [st5 u5|] eqn:H5; [|discriminate]. cbn [bind].
+  intros [= <- _].
+  apply unlock_frame in H3 as [F3 _]. apply unlock_frame in H4 as [F4 _]. apply slash_frame in H5 as [F5 _].
+  eauto using frame_trans.
+Qed.
+
+Definition term_inv (epoch : Z) (snap st : state) (total : Z) : Prop :=
+  InvS epoch total (states st) st /\
+  forall id, proposals st !! id = None \/
+             (proposals st !! id = proposals snap !! id /\ states st !! id = states snap !! id).
+
+Lemma term_one_inv epoch snap caller st total id st' s :
+  0 <= epoch -> term_inv epoch snap st total ->
+  term_one snap caller epoch st id = Ok st' s -> term_inv epoch snap st' (total + s).
+Proof.
+  intros He [I Hc]. unfold term_one.
+  destruct (proposals snap !! id) as [p|] eqn:Hps.
+  2:{ intros [= <- <-]. rewrite Z.add_0_r. now split. }
+  destruct (negb (p_provider p =? caller)); [discriminate|].
+  destruct (p_end p <=? epoch) eqn:Ed.
+  { intros [= <- <-]. rewrite Z.add_0_r. now split. }
+  zb.
+  destruct (states snap !! id) as [ds|] eqn:Hss; [|discriminate].
+  set (st1 := if ds_lu ds =? UNDEF then remove_pending st p else st).
+  assert (Hst1 : states st1 = states st /\ proposals st1 = proposals st)
+    by (unfold st1; destruct (ds_lu ds =? UNDEF); split; reflexivity).
+  destruct Hst1 as [Hs1 Hp1].
+  assert (I1 : InvS epoch total (states st) st1).
+  { unfold st1. destruct (ds_lu ds =? UNDEF); exact I. }
+  destruct (Hc id) as [Hnone|[HP HSt]].
+  - (* already removed during this call: the second removal fails and the message aborts *)
+    pose proof (inv_S_None I id Hnone) as Hsn.
+    destruct (process_slashed_deal st1 p _) as [st2 r|] eqn:H2; [|discriminate]. cbn [bind].
+    apply psd_frame in H2 as [].
+    destruct (rcd_err st2 id) as [c Hc']; [congruence|]. rewrite Hc'. discriminate.
+  - rewrite Hps in HP. rewrite Hss in HSt.
+    destruct (slashed_spec epoch total (states st) st1 id p ds epoch I1) as (st2 & R & F & Pn);
+      [congruence|exact HSt|lia|lia|].
+    rewrite R. cbn [bind].
+    pose proof F as [_ _ _ _ _ _ Ffr]. destruct Ffr.
+    rewrite (rcd_ok st2 id ds p) by congruence. cbn [bind].
+    intros [= <- <-].
+    destruct (deal_facts _ _ _ _ _ _ I HP) as ((W1 & W2 & W3 & W4 & W5) & Hpu & Hfl & _).
+    rewrite HSt in Hpu, Hfl.
+    split.
+    + cbn [states set_proposals set_states]. rewrite f_states, f_prop, Hs1, Hp1.
+      rewrite <- Hp1.
+      eapply inv_eff_remove with (x := p_price p * Z.max 0 (epoch - paid_until (Some ds) p));
+        [exact I1|rewrite Hp1; exact HP| | |].
+      * rewrite HSt. exact F.
+      * rewrite HSt. unfold fee_left in *.
+        assert (Z.max 0 (epoch - paid_until (Some ds) p) <= p_end p - paid_until (Some ds) p) by lia.
+        split; [apply Z.mul_nonneg_nonneg; lia|].
+        assert (p_price p * Z.max 0 (epoch - paid_until (Some ds) p) <=
+                p_price p * (p_end p - paid_until (Some ds) p)) by (apply Z.mul_le_mono_nonneg_l; lia).
+        lia.
+      * assert (0 <= p_price p * Z.max 0 (epoch - paid_until (Some ds) p)) by (apply Z.mul_nonneg_nonneg; lia).
+        lia.
+    + intros k. cbn [proposals states set_proposals set_states].
+      destruct (Z.eq_dec k id) as [->|Hne].
+      * left. apply lookup_delete.
+      * rewrite !lookup_delete_ne by congruence. rewrite f_prop, f_states, Hs1, Hp1. apply Hc.
+Qed.
+
+Lemma term_loop_inv epoch snap caller ids : forall st total st' total',
+  0 <= epoch -> term_inv epoch snap st total ->
+  term_loop snap caller epoch st total ids = Ok st' total' -> term_inv epoch snap st' total'.
+Proof.
+  induction ids as [|id ids IH]; intros st total st' total' He I; cbn [term_loop].
+  - now intros [= <- <-].
+  - destruct (term_one snap caller epoch st id) as [st1 s|] eqn:H1; [|discriminate]. cbn [bind].
+    apply IH; [exact He|]. eapply term_one_inv; eauto.
+Qed.
+
+Lemma terminate_inv_step now st caller m epoch sectors :
+  MarketInv now st -> now <= epoch -> 0 <= epoch ->
+  MarketInv epoch (fst (terminate st caller m epoch sectors)).
+Proof.
+  intros I Hn He. pose proof (invc_now_mono _ _ _ _ _ _ _ _ _ _ _ _ _ I Hn) as I'.
+  unfold terminate. destruct (negb m); [exact I'|].
+  destruct (pop_sector_deals (psectors st) caller sectors) as [ps' ids].
+  destruct (term_loop st caller epoch (set_psectors st ps') 0 ids) as [st1 total|] eqn:Hl; [|exact I'].
+  assert (I1 : term_inv epoch st st1 total).
+  { eapply term_loop_inv; [exact He| |exact Hl]. split; [exact I'|]. intros id. right. split; reflexivity. }
+  destruct I1 as [I1 _].
+  pose proof (i_owed _ _ _ _ _ _ _ _ _ _ _ _ I1) as Ho.
+  pose proof (i_solv _ _ _ _ _ _ _ _ _ _ _ _ I1) as Hs.
+  pose proof (inv_bsum_nonneg _ _ _ _ I1) as Hb.
+  destruct (0 <? total) eqn:E0; zb.
+  - destruct (balance st1 <? total) eqn:E1; zb; [lia|].
+    cbn [fst]. unfold MarketInv, InvS, burn.
+    cbn [proposals states set_funds tot_ccoll tot_pcoll tot_fee escrow balance next_id].
+    change (L (set_funds st1 _ _)) with (L st1). change (E (set_funds st1 _ _)) with (E st1).
+    eapply invc_burn. exact I1.
+  - cbn [fst]. assert (total = 0) as Hz by lia. unfold MarketInv. now rewrite Hz in I1.
+Qed.
+
+(* -- publish_storage_deals -- *)
+Definition okp (epoch : Z) (p : proposal) : Prop :=
+  p_start p < p_end p /\ 0 <= p_price p /\ 0 <= p_ccoll p /\ epoch <= p_start p.
+
+Lemma deal_valid_okp epoch d : deal_valid epoch d = true -> okp epoch (d_prop d).
+Proof. unfold deal_valid, okp. intros H. zb. lia. Qed.
+
+Lemma pub_filter_one_ok st prov epoch acc di d :
+  Forall (okp epoch) (pa_valid acc) -> Forall (okp epoch) (pa_valid (pub_filter_one st prov epoch acc di d)).
+Proof.
+  intros H. unfold pub_filter_one.
+  destruct (negb (deal_valid epoch d)) eqn:Ev; [exact H|]. zb.
+  repeat match goal with |- context [if ?b then acc else _] => destruct b; [exact H|] end.
+  cbn [pa_valid]. apply Forall_app. split; [exact H|]. constructor; [|constructor].
+  now apply deal_valid_okp.
+Qed.
+
+Lemma pub_filter_ok st prov epoch ds : forall acc di,
+  Forall (okp epoch) (pa_valid acc) -> Forall (okp epoch) (pa_valid (pub_filter st prov epoch acc di ds)).
+Proof.
+  induction ds as [|d ds IH]; intros acc di H; cbn [pub_filter]; [exact H|].
+  apply IH. now apply pub_filter_one_ok.
+Qed.
+
+Lemma pub_commit_one_inv epoch st p st' id :
+  0 <= epoch -> okp epoch p -> MarketInv epoch st -> pub_commit_one st p = Ok st' id ->
+  MarketInv epoch st' /\ id = next_id st /\ next_id st' = next_id st + 1.
+Proof.
+  intros He (O1 & O2 & O3 & O4) I. unfold pub_commit_one.
+  destruct (lock_balances st p) as [st1 u|] eqn:Hl; [|discriminate]. cbn [bind].
+  apply lock_balances_inv in Hl as (A1 & A2 & A3 & A4 & A5 & A6 & A7 & A8 & A9 & A10 & A11).
+  destruct A7. intros [= <- <-].
+  split; [|split; [exact f_next|cbn; lia]].
+  unfold MarketInv, InvS.
+  cbn [proposals states set_deal_ops set_proposals set_pending set_next_id tot_ccoll tot_pcoll tot_fee escrow balance next_id].
+  change (L (set_deal_ops _ _ _)) with (L st1). change (E (set_deal_ops _ _ _)) with (E st1).
+  rewrite f_prop, f_states, f_next, f_bal, A6, A9, A10, A11.
+  eapply invc_ext with (Lf := L st1) (Ef := E st); [|reflexivity|intros a; unfold E; now rewrite A6].
+  eapply invc_insert; [exact I| |exact A5|].
+  - unfold wf_prop. lia.
+  - intros a. rewrite A5. pose proof (i_esc _ _ _ _ _ _ _ _ _ _ _ _ I a) as HLE. ind_cases.
+Qed.
+
+Lemma pub_commit_inv epoch ps : forall st ids st' ids',
+  0 <= epoch -> Forall (okp epoch) ps -> MarketInv epoch st ->
+  pub_commit st ps ids = Ok st' ids' -> MarketInv epoch st'.
+Proof.
+  induction ps as [|p ps IH]; intros st ids st' ids' He Hok I; cbn [pub_commit].
+  - now intros [= <- _].
+  - inversion Hok as [|? ? Hp0 Hps]; subst.
+    destruct (pub_commit_one st p) as [st1 id|] eqn:Hc1; [|discriminate]. cbn [bind].
+    destruct (pub_commit_one_inv _ _ _ _ _ He Hp0 I Hc1) as [I1 _].
+    eapply IH; eauto.
+Qed.
+
+Lemma publish_inv_step now st caller epoch t deals :
+  MarketInv now st -> now <= epoch -> 0 <= epoch -> MarketInv epoch (fst (publish st caller epoch t deals)).
+Proof.
+  intros I Hn He. pose proof (invc_now_mono _ _ _ _ _ _ _ _ _ _ _ _ _ I Hn) as I'.
+  unfold publish. destruct deals as [|d0 rest]; [exact I'|].
+  destruct t as [| |o w cs]; [exact I'|exact I'|].
+  destruct (negb (zmem caller (cs ++ [w; o]))); [exact I'|].
+  set (acc := pub_filter st _ epoch _ 0 _).
+  assert (Hok : Forall (okp epoch) (pa_valid acc)) by (apply pub_filter_ok; constructor).
+  destruct (pa_valid acc) as [|p0 ps] eqn:Hv; [exact I'|]. rewrite <- Hv.
+  destruct (pub_commit st (pa_valid acc) []) as [st1 ids|] eqn:Hc; [|exact I'].
+  cbn [fst]. eapply pub_commit_inv; [exact He| |exact I'|exact Hc]. now rewrite Hv.
+Qed.
+
+(* -- activation (both entry points) -- *)
+Definition fresh_ok (st : state) (epoch : Z) (x : Z * dstate) : Prop :=
+  (exists p, proposals st !! fst x = Some p) /\ states st !! fst x = None /\
+  ds_lu (snd x) = UNDEF /\ ds_slash (snd x) = UNDEF /\ ds_start (snd x) = epoch.
+
+Lemma preactivate_inl st id caller expiry epoch p :
+  preactivate st id caller expiry epoch = inl p ->
+  proposals st !! id = Some p /\ states st !! id = None /\ pend_has (pending st) p = true /\
+  p_provider p = caller /\ epoch <= p_start p /\ p_end p <= expiry.
+Proof.
+  unfold preactivate, get_proposal.
+  destruct (proposals st !! id) as [q|]; [|discriminate].
+  unfold can_activate.
+  destruct (negb (p_provider q =? caller)) eqn:E1; [discriminate|].
+  destruct (p_start q <? epoch) eqn:E2; [discriminate|].
+  destruct (expiry <? p_end q) eqn:E3; [discriminate|].
+  destruct (states st !! id); [discriminate|].
+  destruct (pend_has (pending st) q) eqn:E4; [|discriminate].
+  intros [= <-]. zb. repeat split; auto; lia.
+Qed.
+
+Lemma preact_all_inl st activated caller expiry epoch ids : forall ps,
+  preact_all st activated caller expiry epoch ids = inl ps ->
+  Forall (fun id => exists p, preactivate st id caller expiry epoch = inl p) ids.
+Proof.
+  induction ids as [|id ids IH]; intros ps; cbn [preact_all]; [constructor|].
+  destruct (zmem id activated); [discriminate|].
+  destruct (preactivate st id caller expiry epoch) as [p|] eqn:H1; [|discriminate].
+  destruct (preact_all st activated caller expiry epoch ids) as [qs|] eqn:H2; [|discriminate].
+  intros _. constructor; eauto.
+Qed.
+
+Lemma act_sector_fresh st caller epoch acc si s :
+  Forall (fresh_ok st epoch) (aa_states acc) ->
+  Forall (fresh_ok st epoch) (aa_states (act_sector st caller epoch acc si s)).
+Proof.
+  intros H. unfold act_sector. destruct s as [[sector expiry] ids].
+  destruct (has_dup ids); [exact H|].
+  destruct (preact_all st (aa_activated acc) caller expiry epoch ids) as [ps|] eqn:Hp; [|exact H].
+  cbn [aa_states]. apply Forall_app. split; [exact H|].
+  apply preact_all_inl in Hp. rewrite Forall_forall in *. intros x Hx.
+  apply in_map_iff in Hx as (id & <- & Hid). destruct (Hp id Hid) as [p Hpre].
+  apply preactivate_inl in Hpre as (A1 & A2 & _). unfold fresh_ok. cbn. eauto 6.
+Qed.
+
+Lemma act_sectors_fresh st caller epoch l : forall acc si,
+  Forall (fresh_ok st epoch) (aa_states acc) ->
+  Forall (fresh_ok st epoch) (aa_states (act_sectors st caller epoch acc si l)).
+Proof.
+  induction l as [|s l IH]; intros acc si H; cbn [act_sectors]; [exact H|].
+  apply IH. now apply act_sector_fresh.
+Qed.
+
+Lemma inv_put_fresh epoch owed st l : forall S,
+  0 <= epoch ->
+  InvS epoch owed S st ->
+  Forall (fun x => (exists p, proposals st !! fst x = Some p) /\
+                   (S !! fst x = None \/ exists d0, S !! fst x = Some d0 /\ ds_lu d0 = UNDEF) /\
+                   ds_lu (snd x) = UNDEF /\ ds_slash (snd x) = UNDEF /\ ds_start (snd x) = epoch) l ->
+  InvS epoch owed (put_deal_states S l) st.
+Proof.
+  induction l as [|[id ds] l IH]; intros S He I H; cbn [put_deal_states]; [exact I|].
+  inversion H as [|x l' Hx Hl]; subst. cbn [fst snd] in Hx.
+  destruct Hx as ((p & Hp) & HS & D1 & D2 & D3).
+  assert (Hpu : paid_until (Some ds) p = paid_until (S !! id) p).
+  { unfold paid_until. rewrite D1. cbn. destruct HS as [->|(d0 & -> & Hd0)]; [reflexivity|].
+    rewrite Hd0. reflexivity. }
+  apply IH; [exact He| |].
+  - eapply inv_eff_update with (st := st); [exact I|exact Hp| | |].
+    + unfold wf_ds. split; [exact D2|]. split; [unfold UNDEF; lia|]. now left.
+    + rewrite Hpu. lia.
+    + rewrite Hpu. eapply eff_cast; [apply eff_refl|lia..].
+  - rewrite Forall_forall in *. intros x Hin. destruct (Hl x Hin) as (A1 & A2 & A3).
+    split; [exact A1|]. split; [|exact A3].
+    destruct (Z.eq_dec (fst x) id) as [->|Hne].
+    + right. exists ds. rewrite lookup_insert. auto.
+    + rewrite lookup_insert_ne by congruence. exact A2.
+Qed.
+
+Lemma fresh_ok_put epoch st l :
+  0 <= epoch -> MarketInv epoch st -> Forall (fresh_ok st epoch) l ->
+  InvS epoch 0 (put_deal_states (states st) l) st.
+Proof.
+  intros He I H. apply inv_put_fresh; [exact He|exact I|].
+  rewrite Forall_forall in *. intros x Hx. destruct (H x Hx) as (A1 & A2 & A3).
+  split; [exact A1|]. split; [now left|exact A3].
+Qed.
+
+Lemma activate_inv_step now st caller m epoch sectors :
+  MarketInv now st -> now <= epoch -> 0 <= epoch ->
+  MarketInv epoch (fst (batch_activate st caller m epoch sectors)).
+Proof.
+  intros I Hn He. pose proof (invc_now_mono _ _ _ _ _ _ _ _ _ _ _ _ _ I Hn) as I'.
+  unfold batch_activate. destruct (negb m); [exact I'|]. cbn [fst].
+  set (acc := act_sectors st caller epoch _ 0 sectors).
+  assert (Hf : Forall (fresh_ok st epoch) (aa_states acc)) by (apply act_sectors_fresh; constructor).
+  exact (fresh_ok_put epoch st _ He I' Hf).
+Qed.
+
+Lemma scc_piece_fresh st caller sector mce epoch acc pc :
+  Forall (fresh_ok st epoch) (ca_states acc) ->
+  Forall (fresh_ok st epoch) (ca_states (scc_piece st caller sector mce epoch acc pc)).
+Proof.
+  intros H. unfold scc_piece. destruct pc as [[oid data] size].
+  destruct oid as [id|]; [|exact H].
+  destruct (zmem id (ca_activated acc)); [exact H|].
+  destruct (preactivate st id caller mce epoch) as [p|] eqn:Hp; [|exact H].
+  destruct (negb (data =? p_piece p)); [exact H|].
+  destruct (negb (size =? p_size p)); [exact H|].
+  cbn [ca_states]. apply Forall_app. split; [exact H|]. constructor; [|constructor].
+  apply preactivate_inl in Hp as (A1 & A2 & _). unfold fresh_ok. cbn. eauto 6.
+Qed.
+
+Lemma scc_pieces_fresh st caller sector mce epoch pieces : forall acc,
+  Forall (fresh_ok st epoch) (ca_states acc) ->
+  Forall (fresh_ok st epoch) (ca_states (fold_left (scc_piece st caller sector mce epoch) pieces acc)).
+Proof.
+  induction pieces as [|pc l IH]; intros acc H; cbn [fold_left]; [exact H|].
+  apply IH. now apply scc_piece_fresh.
+Qed.
+
+Lemma scc_sectors_fresh st caller epoch l : forall x,
+  Forall (fresh_ok st epoch) (ca_states (fst (fst x))) ->
+  Forall (fresh_ok st epoch) (ca_states (fst (fst (fold_left (scc_sector st caller epoch) l x)))).
+Proof.
+  induction l as [|s l IH]; intros x H; cbn [fold_left]; [exact H|].
+  apply IH. unfold scc_sector. destruct x as [[acc secs] out]. destruct s as [[sector mce] pieces].
+  cbn [fst]. apply scc_pieces_fresh. exact H.
+Qed.
+
+Lemma scc_inv_step now st caller m epoch sectors :
+  MarketInv now st -> now <= epoch -> 0 <= epoch ->
+  MarketInv epoch (fst (sector_content_changed st caller m epoch sectors)).
+Proof.
+  intros I Hn He. pose proof (invc_now_mono _ _ _ _ _ _ _ _ _ _ _ _ _ I Hn) as I'.
+  unfold sector_content_changed. destruct (negb m); [exact I'|].
+  pose proof (scc_sectors_fresh st caller epoch sectors (mkCacc [] [] [] [], [], [])) as Hf.
+  destruct (fold_left (scc_sector st caller epoch) sectors (mkCacc [] [] [] [], [], [])) as [[acc secs] out].
+  cbn [fst] in *.
+  exact (fresh_ok_put epoch st _ He I' (Hf ltac:(constructor))).
+Qed.
+
+(* ------------------------------------------------------------------------------------------ *)
+(* every operation, accepted or rejected, preserves the invariant *)
+Definition wf_op (o : op) : Prop :=
+  0 <= op_epoch o /\
+  match o with
+  | Terminate _ _ e pe _ => pe = e
+  | Settle _ ids => NoDup ids
+  | _ => True
+  end.
+
+Theorem step_inv now st o :
+  MarketInv now st -> now <= op_epoch o -> wf_op o -> MarketInv (op_epoch o) (fst (step st o)).
+Proof.
+  intros I Hn [He Hw]. pose proof (invc_now_mono _ _ _ _ _ _ _ _ _ _ _ _ _ I Hn) as I'.
+  destruct o; cbn [step op_epoch] in *.
+  - now apply add_balance_inv.
+  - now apply withdraw_inv.
+  - now apply publish_inv_step with (now := now).
+  - now apply activate_inv_step with (now := now).
+  - now apply scc_inv_step with (now := now).
+  - subst. now apply terminate_inv_step with (now := now).
+  - now apply settle_inv_step with (now := now).
+  - now apply cron_inv_step with (now := now).
+  - now apply get_balance_inv.
+Qed.
+
+(* ------------------------------------------------------------------------------------------ *)
+(* histories *)
+Fixpoint hist_ok (now : Z) (ops : list op) : Prop :=
+  match ops with
+  | [] => True
+  | o :: r => now <= op_epoch o /\ wf_op o /\ hist_ok (op_epoch o) r
+  end.
+
+Definition last_epoch (now : Z) (ops : list op) : Z := fold_left (fun _ o => op_epoch o) ops now.
+
+Theorem market_inv_run ops : forall now st,
+  MarketInv now st -> hist_ok now ops -> MarketInv (last_epoch now ops) (run st ops).
+Proof.
+  induction ops as [|o ops IH]; intros now st I H; cbn [hist_ok last_epoch fold_left run] in *; [exact I|].
+  destruct H as (H1 & H2 & H3). apply IH; [|exact H3]. now apply step_inv with (now := now).
+Qed.
+
+Theorem market_inv_reachable ivl ops :
+  hist_ok 0 ops -> MarketInv (last_epoch 0 ops) (run (init ivl) ops).
+Proof. intros H. apply market_inv_run; [apply invc_init|exact H]. Qed.
+
+(* the clauses of C06, read off the invariant *)
+Definition obligations (st : state) (a : Z) : Z := osum (contribf a) (proposals st) (states st).
+
+Theorem locked_equals_obligations now st a : MarketInv now st -> L st a = obligations st a.
+Proof. intros I. exact (i_locked _ _ _ _ _ _ _ _ _ _ _ _ I a). Qed.
+
+Theorem locked_le_escrow now st a : MarketInv now st -> 0 <= L st a <= E st a.
+Proof. intros I. split; [exact (inv_L_nonneg I a)|exact (i_esc _ _ _ _ _ _ _ _ _ _ _ _ I a)]. Qed.
+
+Theorem totals_exact now st : MarketInv now st ->
+  tot_ccoll st = osum fcc (proposals st) (states st) /\
+  tot_pcoll st = osum fpc (proposals st) (states st) /\
+  tot_fee st = osum fee_left (proposals st) (states st).
+Proof. intros []. auto. Qed.
+
+Theorem market_solvent now st : MarketInv now st -> bsum (escrow st) <= balance st.
+Proof. intros I. pose proof (i_solv _ _ _ _ _ _ _ _ _ _ _ _ I). lia. Qed.
+
+Theorem states_subset_proposals now st id ds : MarketInv now st -> states st !! id = Some ds ->
+  exists p, proposals st !! id = Some p /\ wf_ds now p ds.
+Proof. intros I H. exact (i_wfS _ _ _ _ _ _ _ _ _ _ _ _ I id ds H). Qed.
+
+Theorem withdraw_exact now st caller who t amt st' paid recipient :
+  MarketInv now st ->
+  withdraw_balance st caller who t amt = (st', [OK; paid; recipient]) ->
+  paid = Z.min amt (E st who - L st who) /\ 0 <= paid /\
+  E st' who = E st who - paid /\ (forall a, a <> who -> E st' a = E st a) /\
+  (forall a, L st' a = L st a) /\ balance st' = balance st - paid /\
+  proposals st' = proposals st /\ states st' = states st /\ pending st' = pending st.
+Proof.
+  intros I. unfold withdraw_balance.
+  destruct (amt <? 0) eqn:Ea; [discriminate|]. zb.
+  destruct (escrow_address who t) as [[rc approved]|]; [|discriminate].
+  destruct (negb (zmem caller approved)); [discriminate|].
+  unfold bt_sub_with_min.
+  pose proof (i_esc _ _ _ _ _ _ _ _ _ _ _ _ I who) as HLE.
+  pose proof (inv_L_nonneg I who) as HLn. unfold L, E in *.
+  set (sub := Z.min (Z.max 0 (bt_get (escrow st) who - bt_get (locked st) who)) amt).
+  assert (Hsub : sub = Z.min amt (bt_get (escrow st) who - bt_get (locked st) who) /\ 0 <= sub) by (unfold sub; lia).
+  destruct (0 <? sub) eqn:Es; zb.
+  - rewrite bt_add_ok by lia.
+    destruct (balance st <? sub); [discriminate|]. intros [= <- <- <-]. cbn.
+    split; [tauto|]. split; [lia|].
+    split; [rewrite bt_get_upd, ind_same; lia|].
+    split; [intros a Ha; rewrite bt_get_upd, ind_diff by exact Ha; lia|].
+    repeat split; reflexivity.
+  - destruct (balance st <? sub); [discriminate|]. intros [= <- <- <-]. cbn.
+    assert (sub = 0) by lia.
+    split; [tauto|]. split; [lia|]. split; [lia|]. split; [reflexivity|].
+    repeat split; try reflexivity; lia.
+Qed.
+
+Theorem withdraw_auth st caller who t amt st' paid recipient :
+  withdraw_balance st caller who t amt = (st', [OK; paid; recipient]) ->
+  match t with
+  | TNone => False
+  | TAccount => caller = who /\ recipient = who
+  | TMiner o w _ => (caller = o \/ caller = w) /\ recipient = o
+  end.
+Proof.
+  unfold withdraw_balance.
+  destruct (amt <? 0); [discriminate|].
+  destruct t as [| |o w cs]; cbn [escrow_address]; [discriminate| |].
+  - destruct (negb (zmem caller [who])) eqn:Ec; [discriminate|].
+    destruct (bt_sub_with_min _ _ _ _) as [[e' ex]|]; [|discriminate].
+    destruct (balance st <? ex); [discriminate|]. intros [= _ _ <-].
+    cbn in Ec. rewrite orb_false_r in Ec. zb. auto.
+  - destruct (negb (zmem caller [o; w])) eqn:Ec; [discriminate|].
+    destruct (bt_sub_with_min _ _ _ _) as [[e' ex]|]; [|discriminate].
+    destruct (balance st <? ex); [discriminate|]. intros [= _ _ <-].
+    cbn in Ec. rewrite orb_false_r in Ec. zb. apply orb_true_iff in Ec as [Ec|Ec]; zb; auto.
+Qed.
+
+(* nobody but withdraw_balance on `who` (and deal payments/slashing) lowers who's escrow: a withdrawal
+   on another account leaves it alone -- this is the frame clause of withdraw_exact *)
